@@ -305,6 +305,10 @@ func (r *intRenderer) tr(t *sx, env irEnv) (*sx, *sx) {
 		x, s := r.tr(t.list[1], env)
 		y, _ := r.tr(t.list[2], env)
 		w := bvWidth(s)
+		if w == 0 {
+			r.fail("unknown width of %s (sort %v)", truncate(t.list[1].String(), 200), s)
+			return t, sortBool_
+		}
 		op := map[string]string{"bvslt": "<", "bvsle": "<=", "bvsgt": ">", "bvsge": ">="}[h]
 		return lst(atom(op), signedOf(x, w), signedOf(y, w)), sortBool_
 	case "bvudiv", "bvurem":
